@@ -159,6 +159,10 @@ pub trait Monitor {
     fn done(&self, _w: &World) -> bool {
         false
     }
+    /// Pure observers have no opinion on when a run may stop.
+    fn observer(&self) -> bool {
+        false
+    }
     /// Add this monitor's counters / probes to the run statistics.
     fn report(&self, _w: &World, _s: &mut Stats) {}
 }
@@ -195,6 +199,7 @@ enum Ev {
     BringOnline(usize),
     Operate(usize, usize),
     AdvWake(u64),
+    FaultsStop,
     Poll(usize, u32),
 }
 
@@ -257,6 +262,9 @@ pub struct World {
     pub stop: bool,
     pub verbose: bool,
     pub last_fault_us: u64,
+    /// Application (index) that built the transmission being announced, None for the FDL's own
+    /// telegrams (token, GAP poll, status reply) and for stub transmissions.
+    pub cur_tx_app: Option<usize>,
     tx_announced: usize,
 }
 
@@ -371,6 +379,7 @@ impl World {
             stop: false,
             verbose: false,
             last_fault_us: 0,
+            cur_tx_app: None,
             tx_announced: 0,
             cfg,
         };
@@ -408,6 +417,10 @@ impl World {
         }
         if w.adv.is_some() {
             w.push(0, 2, Ev::AdvWake(0));
+        }
+        if w.cfg.fault_deadline_us > 0 {
+            let tt = w.us(w.cfg.fault_deadline_us);
+            w.push(tt, 3, Ev::FaultsStop);
         }
         w
     }
@@ -1156,10 +1169,6 @@ impl World {
             }
         }
         self.stations[i].snap = post.clone();
-        // transmissions: faults, events
-        for idx in &txs {
-            self.announce_tx(*idx);
-        }
         if pre.online && !post.online && !self.stations[i].self_offline_seen {
             self.stations[i].self_offline_seen = true;
             self.stats.inc("probe.self_offline_address_collision");
@@ -1191,11 +1200,21 @@ impl World {
             events_taken,
             dup,
         };
+        // Order inside one poll: what was received and the callbacks it caused come first, the
+        // transmission the poll ended with comes last.
         let mut mons = std::mem::take(&mut self.monitors);
         for m in mons.iter_mut() {
             m.on_poll(self, &info);
         }
         self.monitors = mons;
+        self.cur_tx_app = calls.iter().rev().find_map(|c| match c {
+            AppCall::Tx { app, sent: Some(_), .. } => Some(*app),
+            _ => None,
+        });
+        for idx in &txs {
+            self.announce_tx(*idx);
+        }
+        self.cur_tx_app = None;
     }
 
     // --------------------------------------------------------------------------------------
@@ -1296,6 +1315,16 @@ impl World {
                         }
                     }
                 }
+                Ev::FaultsStop => {
+                    for f in self.faults.iter_mut() {
+                        f.fired = true;
+                    }
+                    for s in self.slaves.iter_mut() {
+                        s.byz.clear();
+                        s.flag_faults.clear();
+                    }
+                    self.storms.clear();
+                }
                 Ev::AdvWake(token) => {
                     if let Some(mut adv) = self.adv.take() {
                         let acts = adv.wake(self, token);
@@ -1304,7 +1333,7 @@ impl World {
                     }
                 }
             }
-            if self.monitors.iter().all(|m| m.done(self)) && !self.monitors.is_empty() {
+            if self.monitors.iter().any(|m| !m.observer()) && self.monitors.iter().all(|m| m.observer() || m.done(self)) {
                 break;
             }
             if self.has_violation() {
